@@ -12,6 +12,7 @@ import (
 	"github.com/Shopify/sarama"
 
 	"verif/engine/gx"
+	"verif/engine/simkafka"
 )
 
 func idNum(id string) int {
@@ -58,6 +59,13 @@ func (r *rig) judge() *gx.Outcome {
 				bumped = " after-epoch-bump"
 			}
 		}
+	}
+	if p.Idem && bumped != "" && r.quietBumps() {
+		// the recorded defect class needs messages that carry sequence numbers of the old epoch when the epoch is bumped.
+		// When every failure was delivered while no other submitted message was still undecided (each one had its terminal
+		// event before, or was submitted after the failure had been delivered), nothing carries old numbers: whatever goes
+		// wrong afterwards is NOT that class and gets its own qualifier
+		bumped = " after-quiet-epoch-bump"
 	}
 	byID := map[string][]event{}
 	for _, e := range r.events {
@@ -218,7 +226,7 @@ func (r *rig) judge() *gx.Outcome {
 	for _, pe := range r.cl.Produced {
 		for _, b := range pe.Batches {
 			for _, x := range b.Recs {
-				n := idNum(string(x.Value))
+				n := idNum(simkafka.RecID(x.Key, x.Value))
 				if n < 0 || n >= r.submitted {
 					out.Violate("C04", "alien-record-on-wire", "a produce request carried a record the application did not submit (value %q)", x.Value)
 					continue
@@ -329,7 +337,7 @@ func (r *rig) judge() *gx.Outcome {
 				}
 				ids := []string{}
 				for _, x := range b.Recs {
-					ids = append(ids, string(x.Value))
+					ids = append(ids, simkafka.RecID(x.Key, x.Value))
 				}
 				cur := wire{fmt.Sprint(ids), b.Epoch, int(b.FirstSeq), pe.Step}
 				l := lastWire[b.Partition]
@@ -368,7 +376,7 @@ func (r *rig) judge() *gx.Outcome {
 				k := key{b.Partition, b.Epoch}
 				ids := []string{}
 				for _, x := range b.Recs {
-					ids = append(ids, string(x.Value))
+					ids = append(ids, simkafka.RecID(x.Key, x.Value))
 				}
 				var prev *sent
 				for _, s := range seenB[k] {
@@ -404,7 +412,7 @@ func (r *rig) judge() *gx.Outcome {
 							sig = "sequence-gap after-connection-error-rebatch"
 						}
 					}
-					if b.Epoch > 0 && len(l) == 0 {
+					if b.Epoch > 0 && len(l) == 0 && bumped != " after-quiet-epoch-bump" {
 						// known class: the epoch was bumped (a sequenced message failed) while this message
 						// already carried a sequence number of the previous epoch
 						sig = "stale-sequence-after-epoch-bump"
@@ -484,7 +492,7 @@ func (r *rig) judge() *gx.Outcome {
 			for k, b := range pe.Batches {
 				ids := []string{}
 				for _, x := range b.Recs {
-					ids = append(ids, string(x.Value))
+					ids = append(ids, simkafka.RecID(x.Key, x.Value))
 				}
 				v := pe.Verdicts[k]
 				fmt.Fprintf(&sb, " [p%d pid=%d epoch=%d seq=%d recs=%v -> appended=%v dup=%v base=%d err=%d answered=%v]", b.Partition, b.PID, b.Epoch, b.FirstSeq, ids, v.Appended, v.Duplicate, v.Base, int16(v.Err), v.Answered)
@@ -506,6 +514,40 @@ func (r *rig) judge() *gx.Outcome {
 // that worker may still hold buffered messages of the partition; later messages overtake them through
 // the replacement worker. That defect class gets its own signature; any other reordering keeps the
 // generic one.
+// quietBumps: every failed message was reported at a moment when every other message submitted so far had already been
+// reported; later messages were submitted only after that failure had been delivered to the application. (returnError bumps
+// the epoch BEFORE it hands the error to the application, and a message is sequenced only after it has been submitted.)
+func (r *rig) quietBumps() bool {
+	if len(r.subAt) == 0 {
+		return false
+	}
+	first := map[string]int{}
+	for k, e := range r.events {
+		if _, seen := first[e.id]; !seen {
+			first[e.id] = k
+		}
+	}
+	for k, e := range r.events {
+		if e.ok || e.err == sarama.ErrShuttingDown.Error() {
+			continue
+		}
+		for j := range r.subAt {
+			id := msgID(j)
+			if id == e.id {
+				continue
+			}
+			if t, done := first[id]; done && t < k {
+				continue
+			}
+			if r.subAt[j] > k {
+				continue
+			}
+			return false
+		}
+	}
+	return true
+}
+
 func orderSig(kind string, p *Params, bumped string) string {
 	if bumped != "" {
 		return kind + " idem" + bumped
